@@ -49,3 +49,11 @@ Theorem C06_cancelled_never_started : forall W l s u x,
   count_starts l u = 0.
 Proof. exact cancelled_never_started. Qed.
 Print Assumptions C06_cancelled_never_started.
+
+Theorem C06_preempt_resume : 
+  (forall d time d' u, task_preempt d time = Ok (d', u) -> t_state d = TS_RUNNING /\ t_state d' = TS_PREEMPTED /\
+      t_remaining_time d' = t_remaining_time d /\ t_start_time d' = t_start_time d) /\
+  (forall d time d' u, task_resume d time = Ok (d', u) -> t_state d = TS_PREEMPTED /\ t_state d' = TS_RUNNING /\
+      t_remaining_time d' = t_remaining_time d /\ t_last_step_time d' = time).
+Proof. exact preempt_resume_follow_lifecycle. Qed.
+Print Assumptions C06_preempt_resume.
